@@ -462,3 +462,16 @@ func RunScenario(rep *Reporter, scn interface{}, bound int, budget *Budget, run 
 	}
 	return st
 }
+
+// Peek returns the recorded answer for the NEXT choice point when the chooser is
+// still replaying its prefix and that point carries the given tag; otherwise (0,0).
+// It exists for choices that must be known before the step they qualify (a crash
+// point inside the burst of requests an event causes): the harness peeks, runs the
+// event accordingly, and then registers the point with Choose using the returned n.
+func (c *Chooser) Peek(tag string) (choice, n int) {
+	i := len(c.pts)
+	if i < len(c.prefix) && c.prefix[i].Tag == tag {
+		return c.prefix[i].Choice, c.prefix[i].N
+	}
+	return 0, 0
+}
